@@ -17,7 +17,7 @@ PARS = ['\n\n', '\n \n', '\n\n\n', ' \n\t\n ', '\\par', '\\par ', '\n\\par\n', '
         '\n\n\n\n', '\n  \n  \n', 'BIB']
 
 VANISH = ['com', 'label', 'index', 'unk', 'unkarg', 'skip', 'tikz', 'ltskip', 'vanish2', 'unkenv_b', 'unkenv_e',
-          'lang', 'xspace', 'vspace', 'ygap', 'ytodo']
+          'lang', 'xspace', 'vspace', 'ygap', 'ytodo', 'olang']
 USERDEFS = '\\newcommand{\\ygap}[1]{ }\\newcommand{\\ytodo}[1]{% off\n}\n'
 
 
@@ -92,6 +92,11 @@ def render(rnd, atoms, lang_ml=False):
             s += '\\end{zzenv}'
         elif k == 'lang':
             s += '\\selectlanguage{english}'
+        elif k == 'olang':
+            # babel: the end of the environment ignores following blanks like a control word, nothing more
+            s += '\\begin{otherlanguage}{' + rnd.choice(['german', 'english', 'french']) + '}' \
+                 + rnd.choice(['', '', '%hoQ\n']) + '\\end{otherlanguage}'
+            k = 'unk'
         elif k == 'vspace':
             # declared macro whose replacement is a blank
             s += rnd.choice(['\\vspace{5mm}', '\\vspace*{1ex}'])
@@ -198,9 +203,11 @@ class C05(core.Check):
         ml = case['ml']
         if not ml:
             atoms = [a for a in atoms if a != 'lang']
+        else:
+            atoms = [a for a in atoms if a != 'olang']
         if ctx in ('heading', 'cell', 'item', 'footnote') or ctx.startswith('straddle'):
             # no paragraph-forming environments / unbalanced env delimiters inside these arguments
-            atoms = [a for a in atoms if a not in ('unkenv_b', 'unkenv_e')]
+            atoms = [a for a in atoms if a not in ('unkenv_b', 'unkenv_e', 'olang')]
         if atoms.count('unkenv_b') != atoms.count('unkenv_e'):
             atoms = [a for a in atoms if a not in ('unkenv_b', 'unkenv_e')]
         sep, counts, haspar = render(rnd, atoms, ml)
